@@ -12,7 +12,7 @@ from pedantic.type_checking_logic.check_generic_classes import check_instance_of
     is_instance_of_generic_class
 
 
-def for_all_methods(decorator: F) -> Callable[[Type[C]], Type[C]]:
+def for_all_methods(decorator: F, skip: tuple = ()) -> Callable[[Type[C]], Type[C]]:
     """
         Applies a decorator to all methods of a class.
 
@@ -36,6 +36,9 @@ def for_all_methods(decorator: F) -> Callable[[Type[C]], Type[C]]:
                                              f'Try to write "@dataclass" over "@pedantic_class".')
 
         for attr in cls.__dict__:
+            if attr in skip:
+                continue
+
             attr_value = getattr(cls, attr)
 
             if isinstance(attr_value, (types.FunctionType, types.MethodType)):
@@ -65,7 +68,7 @@ def pedantic_class_require_docstring(cls: C) -> C:
 
 def trace_class(cls: C) -> C:
     """ Shortcut for @for_all_methods(trace) """
-    return for_all_methods(decorator=trace)(cls=cls)
+    return for_all_methods(decorator=trace, skip=('__repr__', '__str__'))(cls=cls)  # trace prints repr(self)
 
 
 def timer_class(cls: C) -> C:
